@@ -7,6 +7,6 @@ CONSTANTS
   Wide = 8
   MaxSize = 6
   Bug = "none"
-INVARIANTS LawBounds LawDecorated LawTransparent LawCursor LawContainer LawFactories LawEndsReached
+INVARIANTS LawBounds LawDecorated LawTransparent LawCursor LawContainer LawFactories LawEndsReached LawReadBack
 PROPERTY LawCursorMonotone
 CHECK_DEADLOCK FALSE
